@@ -87,6 +87,7 @@ pub fn crafted_checksum_campaign(env: &mut Env, shard: u32, shards: u32) -> Resu
                 exec.driver.tracer.end_op(3000);
             }
             // self-check: the frame really carries the chosen checksum (read back from the bytes the writer was handed)
+            let crafted_frames = exec.driver.tracer.frames[frames_before..].len();
             let frame = exec.driver.tracer.frames[frames_before..].first().cloned();
             let Some(frame) = frame else {
                 return Err(CaseError::Engine("crafted record produced no frame".to_string()));
@@ -97,7 +98,7 @@ pub fn crafted_checksum_campaign(env: &mut Env, shard: u32, shards: u32) -> Resu
             exec.driver.close()?;
             let on_disk = std::fs::read(dir.join(&frame.name)).map_err(|err| CaseError::Engine(format!("read wal: {err}")))?;
             let header = &on_disk[frame.off as usize..frame.off as usize + 7];
-            if header[..4] != target.to_le_bytes() || exec.driver.tracer.frames[frames_before..].len() != 1 {
+            if header[..4] != target.to_le_bytes() || crafted_frames != 1 {
                 env.class("crafted-crc:layout-skipped");
                 continue;
             }
